@@ -5,6 +5,7 @@ package verifhook
 
 import (
 	"fmt"
+	"runtime"
 	"sort"
 )
 
@@ -38,12 +39,27 @@ func Reset(budget int64, order int) {
 	Steps, Budget, Order = 0, budget, order
 }
 
+// ExitOnBudget makes an exhausted budget end the goroutine (runtime.Goexit) instead of panicking. The harness sets it
+// while it runs an execution in a goroutine of its own: a panic that has to unwind a runaway recursion through
+// recover-and-repanic frames (encoding/json inside MarshalJSON methods) takes time quadratic in the depth.
+var ExitOnBudget bool
+
+// Exceeded and ExceededPCs report an exhausted budget in ExitOnBudget mode (innermost 400 frames).
+var Exceeded bool
+var ExceededPCs []uintptr
+
 // Enter is called at every function entry and loop head of instrumented code.
 func Enter() {
 	Steps++
 	if Budget > 0 && Steps > Budget {
 		s := Steps
 		Budget = 0 // deferred library code must be able to unwind
+		if ExitOnBudget {
+			pcs := make([]uintptr, 400)
+			ExceededPCs = pcs[:runtime.Callers(1, pcs)]
+			Exceeded = true
+			runtime.Goexit()
+		}
 		panic(StepBudgetExceeded{s})
 	}
 }
